@@ -35,7 +35,8 @@ type structCfg struct {
 
 var structTable = []structCfg{
 	{Type: "Conn", Fields: []string{"cfg"}, ChanFields: []string{"out"}},
-	{Type: "Config", Scalars: true},
+	{Type: "Config", Scalars: true, Fields: []string{"Me"}},
+	{Type: "state.Nick", Scalars: true}, // from /repo/state: the type of Config.Me
 	{Type: "capSet", Fields: []string{"caps"}},
 }
 
@@ -88,6 +89,12 @@ func (p *pkg) fieldZero(t string) string {
 
 func (p *pkg) isStruct(t string) bool { return p.structs[strings.TrimPrefix(t, "*")] != nil }
 
+// structLean: Lean name of a struct type: no pointer star, no package qualifier (*state.Nick is Nick)
+func structLean(t string) string {
+	t = strings.TrimPrefix(t, "*")
+	return t[strings.LastIndex(t, ".")+1:]
+}
+
 // leanType maps a Go type to its Lean rendering ("" = unsupported).  Pointer-to-struct is the struct
 // itself (value semantics; alias.go makes sure no pointer is ever copied or written through a parameter).
 func (p *pkg) leanType(t string) string {
@@ -113,7 +120,7 @@ func (p *pkg) leanType(t string) string {
 			return "List " + el
 		}
 	case p.isStruct(t):
-		return strings.TrimPrefix(t, "*")
+		return structLean(t)
 	}
 	return ""
 }
@@ -281,7 +288,7 @@ func (p *pkg) declLean(name string) string {
 	st := p.structs[name]
 	var b strings.Builder
 	var skipped []string
-	fmt.Fprintf(&b, "structure %s where\n", name)
+	fmt.Fprintf(&b, "structure %s where\n", structLean(name))
 	for _, f := range fieldParams(st.Fields) {
 		switch p.fieldKind(name, f) {
 		case "value":
@@ -297,7 +304,7 @@ func (p *pkg) declLean(name string) string {
 		if structRow(name) != nil {
 			why = " (not listed in the translator's struct table, or unsupported type)"
 		}
-		fmt.Fprintf(&b, "-- fields of %s not translated%s: %s\n", name, why, strings.Join(skipped, ", "))
+		fmt.Fprintf(&b, "-- fields of %s not translated%s: %s\n", structLean(name), why, strings.Join(skipped, ", "))
 	}
 	return "\n" + b.String()
 }
